@@ -270,34 +270,60 @@ inductive Res where
   | ok | err | panic
 deriving DecidableEq, Repr
 
+/-- rebroadcast part of a `resumeAccount` clause -/
+def rebroadcast (s : AState) (a : Acct) (onRestart : Bool) (acts : List String) : AState × Res :=
+  if acts.contains "[onRestart]maybeBroadcastTx" && onRestart then
+    -- StatePendingOpen: LatestTx if it is the funding tx, else look it up by hash
+    let tx? := match a.latestTx with
+      | some t => if t.id == a.outpoint.txid then some t else locateTxByHash s.wallet a.outpoint.txid
+      | none => locateTxByHash s.wallet a.outpoint.txid
+    match tx? with
+    | some t => (maybeBroadcast s t, .ok)
+    | none => (s, .err)
+  else if acts.contains "maybeBroadcastTx" then
+    -- StatePendingClosed: deriveFeeFromTx(account.LatestTx) dereferences LatestTx
+    match a.latestTx with
+    | some t => (maybeBroadcast s t, .ok)
+    | none => (s, .panic)
+  else (s, .ok)
+
+/-- watcher part of a `resumeAccount` clause -/
+def watchers (s : AState) (a : Acct) (acts : List String) : AState :=
+  let s := if acts.contains "WatchAccountConf" then regConf s a.outpoint.txid (a.script s.key) else s
+  let s := if acts.contains "handleStateOpen" then handleStateOpen s a else s
+  if acts.contains "WatchAccountSpend" then regSpend s a.outpoint (a.script s.key) else s
+
 /-- clauses of `resumeAccount` after `StateInitiated` (the `fallthrough` target and the other states). -/
 def resumeRest (s : AState) (a : Acct) (onRestart : Bool) : AState × Res :=
   match resumeActs a.state with
   | none => (s, .err)
   | some acts =>
-    -- rebroadcast
-    let r : AState × Res :=
-      if acts.contains "[onRestart]maybeBroadcastTx" && onRestart then
-        -- StatePendingOpen: LatestTx if it is the funding tx, else look it up by hash
-        let tx? := match a.latestTx with
-          | some t => if t.id == a.outpoint.txid then some t else locateTxByHash s.wallet a.outpoint.txid
-          | none => locateTxByHash s.wallet a.outpoint.txid
-        match tx? with
-        | some t => (maybeBroadcast s t, .ok)
-        | none => (s, .err)
-      else if acts.contains "maybeBroadcastTx" then
-        -- StatePendingClosed: deriveFeeFromTx(account.LatestTx) dereferences LatestTx
-        match a.latestTx with
-        | some t => (maybeBroadcast s t, .ok)
-        | none => (s, .panic)
-      else (s, .ok)
-    match r with
-    | (s, .ok) =>
-      let s := if acts.contains "WatchAccountConf" then regConf s a.outpoint.txid (a.script s.key) else s
-      let s := if acts.contains "handleStateOpen" then handleStateOpen s a else s
-      let s := if acts.contains "WatchAccountSpend" then regSpend s a.outpoint (a.script s.key) else s
-      (s, .ok)
-    | r => r
+    let r := rebroadcast s a onRestart acts
+    if r.2 = .ok then (watchers r.1 a acts, .ok) else r
+
+inductive FundRes where
+  | fail (r : Res)
+  | cancel
+  | got (s : AState) (t : Tx)
+
+/-- `StateInitiated` clause of `resumeAccount` up to the funding transaction: locate it (restart /
+recovery), or create it with `SendOutputs`; on recovery an unknown funding transaction is never re-created. -/
+def fundOrLocate (s : AState) (a : Acct) (onRestart onRecovery feeOk : Bool) (fundTx : Option (Nat × Nat))
+    (acts : List String) : FundRes :=
+  let located : Option Tx :=
+    if (onRestart || onRecovery) && acts.contains "[onRestart || onRecovery]locateTxByOutput"
+    then locateTxByOutput s.wallet (a.out s.key) a.latestTx else none
+  match located with
+  | some t => .got s t
+  | none =>
+    if onRecovery then .cancel
+    else if !feeOk then .fail .err
+    else if !acts.contains "[createTx]SendOutputs" then .fail .err
+    else match fundTx with
+      | none => .fail .err
+      | some (id, idx) =>
+        let t : Tx := { id := id, spends := [], outs := [(idx, a.out s.key)], signed := true, wit := 0 }
+        .got { s with wallet := s.wallet ++ [t], trace := s.trace ++ [.fund (a.out s.key)] } t
 
 /-- `resumeAccount(account, onRestart, onRecovery, feeRate)`; `fundTx` is the transaction `SendOutputs`
 returns when it is called (id and output index chosen by the wallet), `none` = `SendOutputs` fails. -/
@@ -307,27 +333,12 @@ def resume (s : AState) (a : Acct) (onRestart onRecovery feeOk : Bool) (fundTx :
     match resumeActs .initiated with
     | none => (s, .err)
     | some acts =>
-      let located : Option Tx :=
-        if (onRestart || onRecovery) && acts.contains "[onRestart || onRecovery]locateTxByOutput"
-        then locateTxByOutput s.wallet (a.out s.key) a.latestTx else none
-      let funded : Option (AState × Tx) ⊕ Res :=
-        match located with
-        | some t => .inl (some (s, t))
-        | none =>
-          if onRecovery then .inl none
-          else if !feeOk then .inr .err
-          else if !acts.contains "[createTx]SendOutputs" then .inr .err
-          else match fundTx with
-            | none => .inr .err
-            | some (id, idx) =>
-              let t : Tx := { id := id, spends := [], outs := [(idx, a.out s.key)], signed := true, wit := 0 }
-              .inl (some ({ s with wallet := s.wallet ++ [t], trace := s.trace ++ [.fund (a.out s.key)] }, t))
-      match funded with
-      | .inr r => (s, r)
-      | .inl none =>
+      match fundOrLocate s a onRestart onRecovery feeOk fundTx acts with
+      | .fail r => (s, r)
+      | .cancel =>
         -- funding tx unknown to the wallet on recovery: never fund again
         (write s { a with state := .canceled }, .err)
-      | .inl (some (s, t)) =>
+      | .got s t =>
         match t.locate (a.script s.key) with
         | none => (s, .err)
         | some idx =>
@@ -552,8 +563,8 @@ def step (s : AState) : Op → AState × Res
       | none => (s, .err)
       | some t =>
         let s := { s with w := { s.w with spendRegs := s.w.spendRegs.filter (fun x => x.id != r.id) } }
-        let (s, res) := handleSpend s t h
-        ({ s with w := { s.w with spendMap := none } }, res)
+        let r := handleSpend s t h
+        ({ r.1 with w := { r.1.w with spendMap := none } }, r.2)
   | .spendDirect k h =>
     match spendTx s k (s.acct.map (·.outpoint) |>.getD ⟨0, 0⟩) with
     | none => (s, .err)
